@@ -62,7 +62,7 @@ class RunOpaque:
 class ParseFromFile:
     """parse_from_file(path, encoding, parser_settings, **kwargs) == DDLParser(<decoded file content>, **parser_settings).run(file_path=path, **kwargs)"""
     fn = "ddl_parser.parse_from_file"
-    props = ["C19"]
+    props = ["C19", "C06", "C16", "C12"]
     abstract_callees = True
     cases = {"with settings": dict(settings=True), "without settings": dict(settings=False)}
 
